@@ -372,13 +372,7 @@ void one_case(Ctx &c) {
     uint32_t k = c.t.below(25);
     uint16_t idx = MUX[k][0]; uint8_t sub = (uint8_t)MUX[k][1];
     if (m.obj && c.t.chance(50)) { idx = m.obj->idx; sub = m.obj->sub; }   // the object of the currently open transfer
-#if CO_SSDO_N > 1
-    // known finding D38 (findings/known_findings.json): COObjTypeUserSDOAbort() hands the application abort code to the
-    // first server attached to the object, so the region "user-type object addressed while the other server has a transfer
-    // open on the same object" is excluded by construction (counted in class excluded-known-D38)
-    if (idx == 0x2300 && !c.include_known && x.m[1 - n].obj && x.m[1 - n].obj->idx == 0x2300 && x.m[1 - n].st != IDLE) { idx = 0x2003; sub = 0; c.cls("excluded-known-D38"); }
-    if (idx == 0x2300 && !c.include_known && x.m[1 - n].st == UNTRACKED) { idx = 0x2003; sub = 0; c.cls("excluded-known-D38"); }
-#endif
+    // (the region "user-type object addressed while the other server has a transfer open on the same object" was excluded here while D38 was a known finding; D38 is repaired)
     TObj *o = x.w.lookup(idx, sub);
     static const uint16_t W[12] = {20, 14, 14, 10, 10, 22, 14, 8, 6, 6, 6, 6};
     uint32_t kind = c.t.weighted(W);
